@@ -354,7 +354,7 @@ fn jobs(thorough: bool) -> Vec<Job> {
     let mut v = vec![];
     // (prefix set, alphabet level, max extra length, continuation plan)
     let plans: Vec<(u8, usize, Vec<(u8, usize)>)> = if thorough {
-        vec![(1, 3, vec![]), (2, 2, vec![(3, 2)]), (1, 2, vec![(3, 1), (3, 1)]), (0, 2, vec![(3, 2), (0, 1)])]
+        vec![(1, 3, vec![]), (2, 2, vec![(3, 1)]), (1, 1, vec![(3, 1), (3, 1)]), (0, 2, vec![(3, 1), (0, 1)])]
     } else {
         vec![(1, 2, vec![]), (2, 1, vec![(3, 1)]), (0, 1, vec![(3, 1), (0, 1)])]
     };
